@@ -244,6 +244,7 @@ def replay(case):
 
 def run(tier):
     run = Run('C08', tier)
+    run.exhaustive = False     # contains sampled parts (seeds / draw streams / a command table), see explanation
     run.explanation = (
         'Engine S. Every family harness of C01-C03 is built twice with the real library (formula_class=CNF and =OPB) on '
         'every point of their boxes, and every command line of a fixed argv table is run through cnfgen and pbgen '
